@@ -185,10 +185,12 @@ def check(case) -> Outcome:
                 key = tuple(a[:2])
                 if key not in sent_for:
                     continue
-                handled = [t for (t, wname, addr) in sim.cancel_handled
-                           if wname == f'W{wid}' and tuple(addr[:2]) == key]
-                if len(handled) >= len(sent_for[key]) and \
-                        when > max(handled):
+                seen = {}
+                for (t, wname, addr) in sim.cancel_handled:
+                    if wname == f'W{wid}' and tuple(addr[:2]) == key:
+                        seen.setdefault(tuple(addr), t)
+                handled = list(seen.values())
+                if set(seen) >= sent_for[key] and when > max(handled):
                     out.fail('body_started_after_all_cancels_handled',
                              f'{tag} on W{wid} at {when}; the {len(handled)} '
                              f'CANCELs sent for future {key} were handled by '
